@@ -56,14 +56,14 @@ def expected_problems(sa, da, ckind, has_init, p, q) -> List[str]:
     return probs
 
 
-def mk_pair_scn(p, q, same_sim: bool, conn: Optional[dict]) -> dict:
+def mk_pair_scn(p, q, same_sim: bool, conn: Optional[dict], cache: bool = True) -> dict:
     def sim(sid, path):
         return {"sid": sid, "type": "hybrid", "path": list(path), "entities": ["e0"],
                 "ins": {"t": "trigger", "n": "nontrigger"}, "outs": {"p": "persistent", "e": "nonpersistent"},
                 "beh": {"seed": 7, "p_self": 1.0, "horizon": 1, "p_out": 1.0, "Lmax": 1, "L": 1}}
     sims = [sim("A", p)] + ([] if same_sim else [sim("B", q)])
     return {"until": 3, "sims": sims, "conns": [conn] if conn else [], "allow_connect_errors": True,
-            "config": {"cache": True, "lazy": False}}
+            "config": {"cache": cache, "lazy": False}}
 
 
 def table_cases():
@@ -76,7 +76,7 @@ def table_cases():
                             yield p, q, same_sim, sa, da, ckind, ckw, has_init
 
 
-def run_table_case(case, C: Counter, viol, do_run: bool):
+def run_table_case(case, C: Counter, viol, do_run: bool, cache: bool = True):
     p, q, same_sim, sa, da, ckind, ckw, has_init = case
     if same_sim and ckind == "plain":
         return  # an unresolved self-cycle: C06's subject; connect() itself accepts it
@@ -85,11 +85,12 @@ def run_table_case(case, C: Counter, viol, do_run: bool):
     conn.update(ckw)
     if has_init:
         conn["init"] = "INIT"
-    scn = mk_pair_scn(p, q, same_sim, conn)
+    scn = mk_pair_scn(p, q, same_sim, conn, cache=cache)
     probs = expected_problems(sa, da, ckind, has_init, p, q)
     desc = {"src_path": list(p), "dst_path": list(q), "same_simulator": same_sim, "src_attr": sa, "dst_attr": da,
-            "connection": ckind, "initial_data": has_init}
+            "connection": ckind, "initial_data": has_init, "cache": cache}
     C["connect_cases"] += 1
+    C["cache_on" if cache else "cache_off"] += 1
     C["placements_" + placement_kind(p, q)] += 1
     C["expected_reject" if probs else "expected_accept"] += 1
     sched = {"policy": "starve", "starved": ["A"], "seed": 1}
@@ -137,6 +138,43 @@ def run_table_case(case, C: Counter, viol, do_run: bool):
         C["accepted_pairs_run"] += 1
 
 
+def hier_cases(C: Counter) -> List[dict]:
+    """Hierarchical entities: create() returns children of *another* model with other attributes; connect()
+    has to validate against the child's own model."""
+    import mosaik
+    import warnings
+    from mosaik.exceptions import ScenarioError
+    out: List[dict] = []
+    with warnings.catch_warnings():
+        warnings.simplefilter("ignore")
+        world = mosaik.World({"H": {"python": "vlab.stubs:HierSim"}}, skip_greetings=True)
+        try:
+            fa = world.start("H", sim_id="HA")
+            fb = world.start("H", sim_id="HB")
+            pa = fa.Parent()
+            pb = fb.Parent()
+            ca, cb = pa.children[0], pb.children[0]
+            table = [  # (src entity, src attr, dst entity, dst attr, valid?)
+                (ca, "c_out", cb, "c_in", True), (ca, "p_out", cb, "c_in", False), (ca, "c_out", cb, "p_in", False),
+                (pa, "p_out", pb, "p_in", True), (pa, "c_out", pb, "p_in", False), (pa, "p_out", cb, "c_in", True),
+                (ca, "c_out", pb, "p_in", True), (pa, "p_out", cb, "p_in", False),
+            ]
+            for se, sa, de, da, valid in table:
+                C["hierarchical_entity_cases"] += 1
+                try:
+                    world.connect(se, de, (sa, da))
+                    ok = True
+                except ScenarioError:
+                    ok = False
+                if ok != valid:
+                    out.append({"kind": "accepted_but_invalid" if ok else "rejected_but_valid",
+                                "case": {"hierarchical": True, "src": f"{se.type}.{sa}", "dst": f"{de.type}.{da}"},
+                                "note": "attribute must be validated against the entity's own model (child type)"})
+        finally:
+            world.shutdown()
+    return out
+
+
 def obligations(st):
     return st.get("steps", 0)
 
@@ -158,7 +196,7 @@ def run_slice(job: dict) -> dict:
     for k, case in enumerate(table_cases()):
         if k % W != w:
             continue
-        run_table_case(case, C, viol, do_run=(k // W) % job["run_every"] == 0)
+        run_table_case(case, C, viol, do_run=(k // W) % job["run_every"] == 0, cache=bool((k // W) % 2))
         res["evaluations"] += 1
         res["hashes"].add(H([list(case[0]), list(case[1])] + list(case[2:6]) + [case[7]]) % (1 << 52))
         if len(res["samples"]) < 1 and k % 1301 == 0:
@@ -166,6 +204,12 @@ def run_slice(job: dict) -> dict:
             res["samples"].append({"src_path": list(p), "dst_path": list(q), "src_attr": sa, "dst_attr": da,
                                    "connection": ckind, "initial_data": has_init,
                                    "expected_problems": expected_problems(sa, da, ckind, has_init, p, q)})
+    if w == 0:
+        for vv in hier_cases(C):
+            C["violation_" + vv["kind"]] += 1
+            C["unlisted_violations"] += 1
+            res["violations"].append({"v": vv, "replay": {"hier_case": True}})
+        res["evaluations"] += 1
     # ---- (B) group scoping end-to-end with the engine-A monitors ------------------------
     def post(scn, tr, a):
         out = []
@@ -201,8 +245,10 @@ def replay(rep: dict) -> List[dict]:
         def viol(kind, **kw):
             kw["kind"] = kind
             out.append(kw)
-        run_table_case(case, Counter(), viol, True)
+        run_table_case(case, Counter(), viol, True, cache=d.get("cache", True))
         return out
+    if "hier_case" in r:
+        return hier_cases(Counter())
     if "scn" in r:
         from ..monitors import Analysis
         tr = run_case(r["scn"], dict(r["sched"]))
@@ -231,7 +277,8 @@ def evidence(m, tier, seed):
     return {"level": "exploration", "coverage": {
         "rule": "(A) every (source attr in {persistent, non-persistent, no output}) x (dest attr in {trigger, "
                 "non-trigger, no input}) x {plain, shifted, shifted=2, weak} x initial data yes/no x every ordered "
-                "pair of 6 group paths (root, same, nested, sibling) plus self-connections; real connect(), then a "
+                "pair of 6 group paths (root, same, nested, sibling) plus self-connections, cache on and off, plus "
+                "child entities of another model (hierarchical create()); real connect(), then a "
                 "run with the source starved to show that a rejected pair left no data-flow, output request, "
                 "trigger or wait; (B) generated scenarios with sibling/nested groups and weak loops under the "
                 "step-set and ordering monitors (labels by group path); distinct_nontrivial = distinct table "
